@@ -10,11 +10,14 @@
 //!                | 3 number (NumberMapping::mapped_value)
 //!          output: outcome of PPSpline::new; outcome of csolve followed by the coefficients
 //!          (count, values; -1 when unset); then each query as outcome + value.
+//!   evd  : kind(1|2) i k orgflag org nt t* X  -> bsplev_single_dual / bsplev_single_dual2 (X a Dual / Dual2 abscissa)
+//!   vec  : k i m nt t* nx x*                  -> PPSpline::<f64>::new(k, t, None).bspldnev(x, i, m): `0 n bits*` | 2
+//!   ppeq : kind(0|1|2) A B, each = k nt t* hasc [nc c*] -> `0 (A == B) (B == A)` | 2 (a constructor aborts)
 use crate::cal::Rd;
 use crate::numenc::*;
 use crate::{catch, f2i, Ints};
 use rateslib::dual::{Dual, Dual2, NumberMapping};
-use rateslib::splines::{bspldnev_single_f64, bsplev_single_f64, PPSpline};
+use rateslib::splines::{bspldnev_single_f64, bsplev_single_dual, bsplev_single_dual2, bsplev_single_f64, PPSpline};
 
 fn out_f(o: Option<f64>, out: &mut Ints) {
     match o {
@@ -78,6 +81,51 @@ pub fn run(op: &str, a: &Ints) -> Ints {
             }
         }
         "pp" => return pp(&mut r),
+        "evd" => {
+            let kind = r.next();
+            let i = r.next() as usize;
+            let k = r.next() as usize;
+            let org = rd_org(&mut r);
+            let t = rd_fvec(&mut r);
+            if kind == 1 {
+                let x = read_dual(&mut r);
+                match catch(|| bsplev_single_dual(&x, i, &k, &t, org)) {
+                    Some(d) => {
+                        out.push(0);
+                        write_dual(&d, &mut out);
+                    }
+                    None => out.push(2),
+                }
+            } else {
+                let x = read_dual2(&mut r);
+                match catch(|| bsplev_single_dual2(&x, i, &k, &t, org)) {
+                    Some(d) => {
+                        out.push(0);
+                        write_dual2(&d, &mut out);
+                    }
+                    None => out.push(2),
+                }
+            }
+        }
+        "vec" => {
+            let k = r.next() as usize;
+            let i = r.next() as usize;
+            let m = r.next() as usize;
+            let t = rd_fvec(&mut r);
+            let xs = rd_fvec(&mut r);
+            match catch(|| {
+                let s: PPSpline<f64> = PPSpline::new(k, t.clone(), None);
+                s.bspldnev(&xs, &i, &m)
+            }) {
+                Some(v) => {
+                    out.push(0);
+                    out.push(v.len() as i128);
+                    out.extend(v.iter().map(|x| f2i(*x)));
+                }
+                None => out.push(2),
+            }
+        }
+        "ppeq" => return ppeq(&mut r),
         _ => return vec![-1],
     }
     out
@@ -186,6 +234,44 @@ fn pp(r: &mut Rd) -> Ints {
         0 => session!(r, f64, |r: &mut Rd| read_f(r), |v: &f64, o: &mut Ints| write_f(v, o)),
         1 => session!(r, Dual, |r: &mut Rd| read_dual(r), |v: &Dual, o: &mut Ints| write_dual(v, o)),
         2 => session!(r, Dual2, |r: &mut Rd| read_dual2(r), |v: &Dual2, o: &mut Ints| write_dual2(v, o)),
+        _ => vec![-1],
+    }
+}
+
+// ------------------------------------------------------------------------------------------ ==
+macro_rules! rd_pp {
+    ($r:expr, $ty:ty, $rd:expr) => {{
+        let r: &mut Rd = $r;
+        let k = r.next() as usize;
+        let t = rd_fvec(r);
+        let hasc = r.next();
+        let c: Option<Vec<$ty>> = if hasc == 1 {
+            let nc = r.next() as usize;
+            Some((0..nc).map(|_| $rd(r)).collect())
+        } else {
+            None
+        };
+        catch(|| PPSpline::<$ty>::new(k, t, c))
+    }};
+}
+macro_rules! ppeq_kind {
+    ($r:expr, $ty:ty, $rd:expr) => {{
+        let a = rd_pp!($r, $ty, $rd);
+        let b = rd_pp!($r, $ty, $rd);
+        match (a, b) {
+            (Some(a), Some(b)) => match catch(|| (a == b, b == a)) {
+                Some((x, y)) => vec![0, x as i128, y as i128],
+                None => vec![2],
+            },
+            _ => vec![2],
+        }
+    }};
+}
+fn ppeq(r: &mut Rd) -> Ints {
+    match r.next() {
+        0 => ppeq_kind!(r, f64, |r: &mut Rd| read_f(r)),
+        1 => ppeq_kind!(r, Dual, |r: &mut Rd| read_dual(r)),
+        2 => ppeq_kind!(r, Dual2, |r: &mut Rd| read_dual2(r)),
         _ => vec![-1],
     }
 }
